@@ -294,60 +294,121 @@ func bearerToken(c Cred) (string, error) {
 
 // ---------------------------------------------------------------- run
 
-func runHTTP(c HTTPCase, cc *kit.Case) {
-	// ---- system under test
+// sink is what serve reports to: a *kit.Case, or a recorder of its own (Session unit).
+type sink interface {
+	Label(string)
+	NonTrivial()
+	Fail(sig, format string, args ...any)
+	Failed() bool
+}
+
+// httpEnv is ONE httpd.Handler (authentication enabled) with its fake collaborators. The auth
+// service's state (users, subscription tokens) is data that install replaces; the handler and
+// the auth service object stay the same, as in a running daemon whose users are edited.
+type httpEnv struct {
+	secret    string
+	h         *httpd.Handler
+	fa        *fakeAuth
+	pw        *fakeWriter
+	hits      []hit
+	users     []HUser
+	subs      []HSub
+	idents    map[string]*ident
+	subIdents map[string]*ident
+	context   string // appended to every failure message (Session: the steps served before)
+}
+
+func newHTTPEnv(secret string, cc sink) *httpEnv {
+	e := &httpEnv{secret: secret}
 	statMap := &expvar.Map{}
 	statMap.Init()
-	h := httpd.NewHandler(true, false, false, false, false, statMap, nopDiag{}, c.Secret)
-	fa := &fakeAuth{users: map[string]fakeUser{}, subs: map[string]auth.User{}}
-	idents := map[string]*ident{}
-	for _, u := range c.Users {
-		fa.users[u.Name] = fakeUser{pass: u.Pass, u: auth.NewUser(u.Name, nil, u.Admin, userPrivileges(u.API, u.DB))}
-		id := &ident{name: u.Name, admin: u.Admin, api: newRefTable(u.API), db: map[string][]string{}}
-		for _, g := range u.DB {
-			id.db[g.DB] = g.Privs
-		}
-		idents[u.Name] = id
-	}
-	subIdents := map[string]*ident{}
-	for _, s := range c.Subs {
-		// services/auth GrantSubscriptionAccess: write on /api/write, all on /api/ping, write on the database
-		api := []Grant{{Path: "/api/write", Privs: []string{"write"}}, {Path: "/api/ping", Privs: []string{"all"}}}
-		dbg := []DBGrant{{DB: s.DB, Privs: []string{"write"}}}
-		fa.subs[s.Token] = auth.NewUser("_sub:"+s.Token, nil, false, userPrivileges(api, dbg))
-		subIdents[s.Token] = &ident{name: "_sub:" + s.Token, api: newRefTable(api), db: map[string][]string{s.DB: {"write"}}}
-	}
-	h.AuthService = fa
-	pw := &fakeWriter{}
-	h.PointsWriter = pw
+	h := httpd.NewHandler(true, false, false, false, false, statMap, nopDiag{}, secret)
+	e.h = h
+	e.fa = &fakeAuth{users: map[string]fakeUser{}, subs: map[string]auth.User{}}
+	h.AuthService = e.fa
+	e.pw = &fakeWriter{}
+	h.PointsWriter = e.pw
 	h.DiagService = fakeLevel{}
-	var hits []hit
 	var routes, previewRoutes []httpd.Route
 	for _, m := range handledMethodList {
 		for _, p := range dummyPatterns {
 			pat := p
 			routes = append(routes, httpd.Route{Method: m, Pattern: pat, HandlerFunc: func(w http.ResponseWriter, r *http.Request) {
-				hits = append(hits, hit{pattern: basePath + pat, path: r.URL.Path})
+				e.hits = append(e.hits, hit{pattern: basePath + pat, path: r.URL.Path})
 				fmt.Fprintf(w, `{"served":%q}`, pat)
 			}})
 		}
 		routes = append(routes, httpd.Route{Method: m, Pattern: "/who", HandlerFunc: func(w http.ResponseWriter, r *http.Request, u auth.User) {
-			hits = append(hits, hit{pattern: basePath + "/who", path: r.URL.Path, user: u.Name(), forward: true})
+			e.hits = append(e.hits, hit{pattern: basePath + "/who", path: r.URL.Path, user: u.Name(), forward: true})
 			fmt.Fprintf(w, `{"user":%q}`, u.Name())
 		}})
 		previewRoutes = append(previewRoutes, httpd.Route{Method: m, Pattern: "/p", HandlerFunc: func(w http.ResponseWriter, r *http.Request) {
-			hits = append(hits, hit{pattern: httpd.BasePreviewPath + "/p", path: r.URL.Path})
+			e.hits = append(e.hits, hit{pattern: httpd.BasePreviewPath + "/p", path: r.URL.Path})
 			fmt.Fprintf(w, `{"served":"preview/p"}`)
 		}})
 	}
 	if err := h.AddRoutes(routes); err != nil {
 		cc.Fail("harness/routes", "AddRoutes: %v", err)
-		return
+		return nil
 	}
 	if err := h.AddPreviewRoutes(previewRoutes); err != nil {
 		cc.Fail("harness/routes", "AddPreviewRoutes: %v", err)
+		return nil
+	}
+	return e
+}
+
+// install makes users and subs the complete state of the auth service (and of the reference)
+// from now on: what the real service does on create / update / delete of a user and on
+// grant / revoke of a subscription token, seen from the handler's side of auth.Interface.
+func (e *httpEnv) install(users []HUser, subs []HSub) {
+	e.users, e.subs = users, subs
+	e.fa.users = map[string]fakeUser{}
+	e.fa.subs = map[string]auth.User{}
+	e.idents = map[string]*ident{}
+	e.subIdents = map[string]*ident{}
+	for _, u := range users {
+		e.fa.users[u.Name] = fakeUser{pass: u.Pass, u: auth.NewUser(u.Name, nil, u.Admin, userPrivileges(u.API, u.DB))}
+		id := &ident{name: u.Name, admin: u.Admin, api: newRefTable(u.API), db: map[string][]string{}}
+		for _, g := range u.DB {
+			id.db[g.DB] = g.Privs
+		}
+		e.idents[u.Name] = id
+	}
+	for _, s := range subs {
+		// services/auth GrantSubscriptionAccess: write on /api/write, all on /api/ping, write on the database
+		api := []Grant{{Path: "/api/write", Privs: []string{"write"}}, {Path: "/api/ping", Privs: []string{"all"}}}
+		dbg := []DBGrant{{DB: s.DB, Privs: []string{"write"}}}
+		e.fa.subs[s.Token] = auth.NewUser("_sub:"+s.Token, nil, false, userPrivileges(api, dbg))
+		e.subIdents[s.Token] = &ident{name: "_sub:" + s.Token, api: newRefTable(api), db: map[string][]string{s.DB: {"write"}}}
+	}
+}
+
+func runHTTP(c HTTPCase, cc *kit.Case) {
+	e := newHTTPEnv(c.Secret, cc)
+	if e == nil {
 		return
 	}
+	e.install(c.Users, c.Subs)
+	e.serve(c, cc)
+}
+
+// served is what serve observed (for the Session unit's history).
+type servedInfo struct {
+	target string
+	code   int
+	writes int
+	hits   int
+	ref    string // reference outcome (labels and the Session unit's non-trivial rule only)
+}
+
+// serve sends the request of c (its Users/Subs/Secret are NOT read: the environment's are in
+// force) through the handler and judges the answer against the reference.
+func (e *httpEnv) serve(c HTTPCase, cc sink) (info servedInfo) {
+	h, pw := e.h, e.pw
+	e.hits, pw.calls = nil, nil
+	idents, subIdents := e.idents, e.subIdents
+	c.Secret, c.Users, c.Subs = e.secret, e.users, e.subs
 
 	// ---- the request, byte for byte as a client that does not clean paths would send it
 	q := []string{}
@@ -403,6 +464,8 @@ func runHTTP(c HTTPCase, cc *kit.Case) {
 	w := httptest.NewRecorder()
 	h.ServeHTTP(w, req)
 	code := w.Code
+	hits := e.hits
+	info = servedInfo{target: target, code: code, writes: len(pw.calls), hits: len(hits)}
 
 	// ---- reference: who is validly identified?
 	var valid []*ident
@@ -462,12 +525,13 @@ func runHTTP(c HTTPCase, cc *kit.Case) {
 		cc.Label(fmt.Sprintf("status:%dxx", code/100))
 	}
 	describe := func() string {
-		return fmt.Sprintf("%s %s -> %d %q; secret=%q users=%+v subs=%+v creds=%+v hits=%+v writes=%+v", c.Method, target, code, strings.TrimSpace(w.Body.String()), c.Secret, c.Users, c.Subs, c.Creds, hits, pw.calls)
+		return fmt.Sprintf("%s %s -> %d %q; secret=%q users=%+v subs=%+v creds=%+v hits=%+v writes=%+v", c.Method, target, code, strings.TrimSpace(w.Body.String()), c.Secret, c.Users, c.Subs, c.Creds, hits, pw.calls) + e.context
 	}
 
 	// ---- requests that are answered before authentication and never served
 	if !handledMethods[c.Method] || c.Method == "OPTIONS" {
 		cc.Label("answered-before-authentication:" + map[bool]string{true: "OPTIONS", false: "unhandled-method"}[c.Method == "OPTIONS"])
+		info.ref = "answered-before-authentication"
 		if len(hits) > 0 || len(pw.calls) > 0 {
 			cc.Fail("http/handler-ran-for-unauthenticated-method", "a route handler ran for method %s: %s", c.Method, describe())
 		}
@@ -486,6 +550,24 @@ func runHTTP(c HTTPCase, cc *kit.Case) {
 		}
 		if !id.admin && deciding != "" {
 			decidedByGrant = true
+		}
+	}
+	switch {
+	case len(valid) == 0:
+		info.ref = "invalid-credentials"
+	case len(allowed) == 0:
+		info.ref = "api-deny"
+	default:
+		info.ref = "api-allow"
+		if r := joinSegs(res); reqDB != "" && c.Method == "POST" && (r == "/api/write" || r == "/api/preview/write") {
+			info.ref = "api-allow,db-deny"
+			for _, id := range allowed {
+				a, _ := id.allowAPI([]string{"api", "write"}, "write")
+				b, _ := id.allowDB(reqDB, "write")
+				if a && b {
+					info.ref = "api-allow,db-allow"
+				}
+			}
 		}
 	}
 	redirect := code >= 300 && code < 400
@@ -572,6 +654,7 @@ func runHTTP(c HTTPCase, cc *kit.Case) {
 		cc.Label("write:refused-by-database-check")
 		cc.NonTrivial()
 	}
+	return info
 }
 
 // ---------------------------------------------------------------- generator
